@@ -216,8 +216,9 @@ class C17(scen.WorldProp):
             if rows and rows[0] != opening:
                 return f"opening row {rows[0]}, expected {opening} on {N} bells"
             for i, r in enumerate(rows):
-                if r[need:] != opening[need:]:
-                    return f"row {i} = {r}: cover bells are not {opening[need:]}"
+                if r[stage:] != opening[stage:]:
+                    return (f"row {i} = {r}: the bells above the method's stage ({stage}) are not covering in the order "
+                            f"the opening row gives them, {opening[stage:]}")
         return None
 
 
